@@ -169,6 +169,10 @@ class Ctx:
             else:
                 reported.append(v)
         os.makedirs(os.path.join(ROOT, "replays"), exist_ok=True)
+        if self.write_evidence:
+            import glob
+            for old_file in glob.glob(os.path.join(ROOT, "replays", "%s-*.json" % self.pid)):
+                os.unlink(old_file)         # replay files of earlier runs of this property
         lines = []
         for n, v in enumerate(reported):
             safe = re.sub(r"[^A-Za-z0-9_.-]+", "_", v["obligation"])[:80]
